@@ -21,6 +21,8 @@ type vCastOpts struct {
 }
 
 func vSetCastOpts(o vCastOpts) {
+	// whatever was registered before is replaced or cleared by the calls below
+	SetCheckTagToSkipFunc(func(string) bool { return true })
 	CastValuesToInt(o.toInt)
 	CastValuesToFloat(o.toFloat)
 	CastValuesToBool(o.toBool)
